@@ -22,20 +22,39 @@ def summary_totals(stdout):
     return tuple(int(x) for x in m.groups()) if m else None
 
 
-def run_chain(w, blocks, coin, verify, ck_label):
-    d = datadir.simple_dir(w.sub('dd'), blocks, coin).write()
-    r = run.run_parser(d, 'csvdump', dump=w.mk('out'), coin=coin, verify=verify, start=1 if verify else None, timeout=180)
-    first = 1 if verify else 0
-    chain = [(h, b) for h, b in enumerate(blocks) if h >= first]
+def run_chain(w, blocks, coin, verify, ck_label, r0=None):
+    """dump a chain and compare with the reference; the other dimensions of a run vary too: several blk files in random
+    physical order, XOR obfuscation, --start / --end"""
+    r0 = r0 or random.Random(len(blocks))
+    nfiles = r0.choice([1, 1, 3])
+    d = datadir.DataDir(w.sub('dd'), coin)
+    order = list(range(len(blocks)))
+    if nfiles > 1:
+        r0.shuffle(order)
+    offs = {}
+    for h in order:
+        offs[h] = (h % nfiles, d.place(h % nfiles, blocks[h]['raw']))
+    for h, b in enumerate(blocks):
+        d.record(b['hdr'], h, datadir.ACTIVE, len(b['txs']), offs[h][0], offs[h][1])
+    d.core_extras()
+    d.write(xor_key=r0.choice([None, None, r0.randbytes(8), r0.randbytes(5)]))
+    first = r0.choice([1, 1, 2]) if verify else r0.choice([0, 0, 1])
+    first = min(first, len(blocks) - 1)
+    end = r0.choice([None, None, None, len(blocks) - 2]) if len(blocks) - 2 > first else None
+    r = run.run_parser(d.path, 'csvdump', dump=w.mk('out'), coin=coin, verify=verify, start=first or None, end=end, timeout=180)
+    lastb = len(blocks) - 1 if end is None else end
+    chain = [(h, b) for h, b in enumerate(blocks) if first <= h <= lastb]
     exp, tot = ref.csv_expected(chain, coin)
     probs = []
     if r.rc != 0:
         probs.append('exit status %d: %s' % (r.rc, r.stderr[-300:]))
     else:
-        probs += layout.compare_csv(r, exp, first, len(blocks) - 1)
+        probs += layout.compare_csv(r, exp, first, lastb)
         st = summary_totals(r.stdout)
         if st != tot:
             probs.append('completion summary says %s transactions/inputs/outputs, rows written are %s' % (st, tot))
+    if probs:
+        probs.append('(files=%d start=%s end=%s)' % (nfiles, first, end))
     return probs, r
 
 
@@ -123,7 +142,7 @@ def main(ck, tier, w, pid='C01'):
             blocks.append(b)
             prev = b['hash']
         verify = n % 2 == 1
-        probs, r = run_chain(w, blocks, coin, verify, pid)
+        probs, r = run_chain(w, blocks, coin, verify, pid, r0)
         return j, coin, verify, probs, r
     for j, coin, verify, probs, r in chains.pmap(one, jobs):
         ck.evals(len(j[1]))
@@ -180,7 +199,7 @@ def boundary(ck, w, seed, quick):
             b = datadir.mk_block(prev, txs, t=r0.randrange(1, 2 ** 32), ver=r0.choice([1, 2, 4]), nonce=r0.randrange(2 ** 32), bits=r0.randrange(2 ** 32))
             blocks.append(b)
             prev = b['hash']
-        probs, r = run_chain(w, blocks, coin, i % 2 == 0, 'C01')
+        probs, r = run_chain(w, blocks, coin, i % 2 == 0, 'C01', r0)
         return j, coin, probs, r
     for j, coin, probs, r in chains.pmap(one, jobs, 8):
         ck.evals()
@@ -206,7 +225,7 @@ def aux_extras(ck, w, seed, quick):
             b = wirerep.mk_block(rec, r0, prev=prev, t=r0.randrange(1, 2 ** 32))
             blocks.append(b)
             prev = b['hash']
-        probs, r = run_chain(w, blocks, coin, True, 'C12')
+        probs, r = run_chain(w, blocks, coin, True, 'C12', r0)
         return j, probs, r
     for j, probs, r in chains.pmap(one, jobs, 8):
         ck.evals()
